@@ -374,7 +374,16 @@ func judge(p *prepared, c limitsCfg, t0 result, r result) []finding {
 	if lay.shortReach && r.Err == nil {
 		out = append(out, finding{fmt.Sprintf("short-stream-accepted:%s", lieTag), "a member whose central directory announces more than its stream holds was extracted and the call reported success"})
 	}
-	return out
+	// one finding per signature and case (several handles of one extraction may break the same clause)
+	seen := map[string]bool{}
+	uniq := out[:0]
+	for _, f := range out {
+		if !seen[f.Sig] {
+			seen[f.Sig] = true
+			uniq = append(uniq, f)
+		}
+	}
+	return uniq
 }
 
 // ---- limits configurations ---------------------------------------------------------------------------------------------
